@@ -99,13 +99,26 @@ Definition run_build (b : build) : res bytes :=
   | BSyncPoints p => marshal_sync_points p
   end.
 
+(* table entries refer to the message by offset: (offset, value) for the 32-byte
+   key window copied from data[offset:], (offset, length, value) for slices *)
+Definition sub (data : bytes) (o l : Z) : bytes := firstn (Z.to_nat l) (skipn (Z.to_nat o) data).
+Definition key_tab (data : bytes) (t : list (Z * bool)) : list (bytes * bool) :=
+  map (fun e => (copy_arr 32 (skipn (Z.to_nat (fst e)) data), snd e)) t.
+Definition slice_tab {V} (data : bytes) (t : list (Z * Z * V)) : list (bytes * V) :=
+  map (fun e => (sub data (fst (fst e)) (snd (fst e)), snd e)) t.
+
 Inductive case :=
 | CParse (version : N) (data : bytes)
-    (keys : list (bytes * bool)) (snaps : list (bytes * option osnap)) (txs : list (bytes * bool))
+    (keys : list (Z * bool)) (snaps : list (Z * Z * option osnap)) (txs : list (Z * Z * bool))
+    (obs : res (N * omsg))
+(* run the builder, compare its output; then parse that output (cut to [cut-1]
+   bytes when cut > 0, extended by [extra]) *)
+| CBuildParse (b : build) (obs_build : res bytes) (cut : Z) (extra : bytes) (version : N)
+    (keys : list (Z * bool)) (snaps : list (Z * Z * option osnap)) (txs : list (Z * Z * bool))
     (obs : res (N * omsg))
 | CBuild (b : build) (obs : res bytes)
 | CUnmarshalPoints (data : bytes) (obs : res (list sync_point))
-| CParseTxsPayload (data : bytes) (txs : list (bytes * bool)) (obs : res (list bytes)).
+| CParseTxsPayload (data : bytes) (txs : list (Z * Z * bool)) (obs : res (list bytes)).
 
 Definition key_fun (tab : list (bytes * bool)) (d : bool) (k : bytes) : bool :=
   match lookup tab k with Some v => v | None => d end.
@@ -118,14 +131,28 @@ Definition tx_fun (tab : list (bytes * bool)) (d : bool) (b : bytes) : option by
   | None => if d then Some b else None
   end.
 
+Definition check_parse v data keys snaps txs (obs : res (N * omsg)) : bool :=
+  let kt := key_tab data keys in
+  let st := slice_tab data snaps in
+  let tt := slice_tab data txs in
+  let run d := parse_msg osnap bytes (snap_fun st d) snd (tx_fun tt d) (key_fun kt d) v data in
+  res_eqb vmsg_eqb (run true) obs && res_eqb vmsg_eqb (run false) obs.
+
 Definition check (c : case) : bool :=
   match c with
-  | CParse v data keys snaps txs obs =>
-      let run d := parse_msg osnap bytes (snap_fun snaps d) snd (tx_fun txs d) (key_fun keys d) v data in
-      res_eqb vmsg_eqb (run true) obs && res_eqb vmsg_eqb (run false) obs
+  | CParse v data keys snaps txs obs => check_parse v data keys snaps txs obs
+  | CBuildParse b obs_build cut extra v keys snaps txs obs =>
+      res_eqb bytes_eqb (run_build b) obs_build &&
+      match obs_build with
+      | Ok out =>
+          let data := (if 0 <? cut then firstn (Z.to_nat (cut - 1)) out else out) ++ extra in
+          check_parse v data keys snaps txs obs
+      | _ => false
+      end
   | CBuild b obs => res_eqb bytes_eqb (run_build b) obs
   | CUnmarshalPoints data obs => res_eqb (list_eqb point_eqb) (unmarshal_sync_points data) obs
   | CParseTxsPayload data txs obs =>
-      let run d := parse_txs_payload bytes (tx_fun txs d) data in
+      let tt := slice_tab data txs in
+      let run d := parse_txs_payload bytes (tx_fun tt d) data in
       res_eqb (list_eqb bytes_eqb) (run true) obs && res_eqb (list_eqb bytes_eqb) (run false) obs
   end.
